@@ -7,7 +7,7 @@ from typing import List, Optional
 from ..cfg import CFG, EXIT, RAISE
 from ..core import Ctx
 from ..model import body_stmts, dotted, kwarg, norm, walk_no_nested
-from .common import assigned_value, check_unitary_record, enclosing, prog, resolve_local, stores_to
+from .common import assigned_value, check_alignment_record, check_unitary_record, enclosing, prog, resolve_local, stores_to
 
 
 def _raises(stmts, exc: str) -> bool:
@@ -251,6 +251,7 @@ def run(ctx: Ctx):
     ctx.not_decided += ["behaviour on units foreign to the continuum (outside the property's quantifier: alignments over the continuum's units)"]
     ctx.assumptions += ["Unit is hashable with value equality (frozen dataclass)"]
     check_unitary_record(ctx, "R-C17-1", nb_units=False)
+    check_alignment_record(ctx, "R-C17-4")
     rule_partition_check(ctx)
     rule_cover_check(ctx)
     rule_constructors(ctx)
